@@ -80,6 +80,7 @@ CANARIES = [
     ('bytes-cmp-reversed', 'C08', 'src/bytes.rs', '        a.cmp(b)', '        b.cmp(a)'),
     ('bytes-eq-by-length', 'C01', 'src/bytes.rs', '        a.eq(b)', '        a.len() == b.len()'),
     ('cursor-next-repeats-entry', 'C08', 'src/cursor.rs', '        } else if self.next_called && !self.advance() {', '        } else if false && !self.advance() {'),
+    ('cursor-search-always-found', 'C08', 'src/cursor.rs', '            return (exact, stack);', '            return (true, stack);'),
     ('cursor-search-wrong-child', 'C08', 'src/cursor.rs', '        let next_page_id = page_node.index_page(index);', '        let next_page_id = page_node.index_page(0);'),
     ('cursor-skip-loop-spins', 'C08', 'src/cursor.rs', '        while self.on_emptied_leaf() {\n            if !self.advance() {\n                return None;\n            }\n        }', '        while self.on_emptied_leaf() {\n            if self.stack.is_empty() {\n                return None;\n            }\n        }'),
     ('cursor-stops-at-emptied-leaf', 'C07', 'src/cursor.rs', '        while self.on_emptied_leaf() {', '        while false {'),
